@@ -1185,8 +1185,12 @@ func abs(x float64) float64 {
 	return x
 }
 
+// roundup rounds half-up to one decimal. The small epsilon is the one of the
+// FIRST reference calculator (roundToDecimalPlaces): it keeps values that are
+// exactly x.x5 over the reals, but land just below in float64 (e.g.
+// 8.549999999999999), from being rounded down.
 func roundup(x float64) float64 {
-	return math.Round(x*10) / 10
+	return math.Round((x+0.000001)*10) / 10
 }
 
 // Nomenclature returns the CVSS v4.0 configuration used when scoring.
